@@ -82,6 +82,11 @@ def gen_cases(ctx):
     alphabet = "abcdefghijklmnopqrstuvwxyzABCDEFGHIJKLMNOPQRSTUVWXYZ0123456789#_- éıK"
     for _ in range(500):
         add("".join(rng.choice(alphabet) for _ in range(rng.randrange(0, 12))), "random")
+    # valid colours with blanks inside or around them: Qt reads none of them as a colour
+    for _ in range(150):
+        base = rng.choice(["#123abc", "#8fc", "#80123abc", "#1234", rng.choice(kws), rng.choice(kws), "transparent"])
+        k = rng.randrange(0, len(base) + 1)
+        add(base[:k] + rng.choice([" ", "\t", "  ", " \t"]) + base[k:], "blank-inside")
     return cases
 
 
@@ -129,3 +134,47 @@ def run(ctx):
                   % (len(bad), cases[idx[bad[0]]]))
     ctx.coverage["disagreements_model"] = len(bad)
     ctx.coverage["disagreements_spec"] = len(bad_spec)
+    pipeline(ctx, vh, cases, impl)
+
+
+def pipeline(ctx, vh, cases, impl):
+    """the strings as colour / brush bindings of documents: what uigen makes of a string is what Color::from_str (tied to Qt's reading above) makes of it"""
+    import os
+    from . import qml, prog
+    os.environ["VERIF_EXTRA_METATYPES"] = ""
+    rng = ctx.rng
+    pick = [i for i, c in enumerate(cases) if ctx.generator_kind(i) in ("blank-inside", "other", "keyword-nearmiss", "hex-baddigit", "hex-badlen")] if hasattr(ctx, "generator_kind") else []
+    special = [i for i, c in enumerate(cases) if (" " in c or "\t" in c or c.count("#") != 1 or not c.isascii())]
+    idxs = sorted(set(special[:400] + rng.sample(range(len(cases)), min(len(cases), 300 if ctx.tier != "thorough" else 3000))))
+    idxs = [i for i in idxs if "\x00" not in cases[i] and "\n" not in cases[i] and "\r" not in cases[i]]
+    docs = []
+    for i in idxs:
+        docs.append("import qmluic.QtWidgets\nQWidget { QColorDialog { id: d; currentColor: %s } QGraphicsView { id: v; backgroundBrush: %s } }\n" % (prog.qml_str(cases[i]), prog.qml_str(cases[i])))
+    res = qml.run_docs(vh, docs, mode="generate")
+    n = 0
+    for i, doc, r in zip(idxs, docs, res):
+        s = cases[i]
+        ctx.count(("pipeline", s), True)
+        if not isinstance(r, dict) or "diags" not in r:
+            ctx.violation("pipeline crashes on a colour string %r" % s, {"case": s, "qml": doc, "impl_output": str(r)[:500]})
+            continue
+        want = impl[i]
+        accepted = r.get("ui") is not None and not any(d["kind"] == "error" for d in r["diags"])
+        if isinstance(want, list) != accepted:
+            ctx.violation("colour string %r: as a binding it is %s, Qt's reading (Color::from_str, compared with spec_color in this run) %s" %
+                          (s, "accepted" if accepted else "rejected", "gives %r" % (want,) if isinstance(want, list) else "rejects it"),
+                          {"case": s, "qml": doc, "impl_output": r.get("ui") if accepted else [d["msg"] for d in r["diags"]], "oracle_output": want,
+                           "theorem_or_correspondence": "S: uigen colour / brush binding vs spec_color"})
+            continue
+        if accepted:
+            root = qml.parse_ui(r["ui"])
+            cols = [c for c in root.iter("color")]
+            for c in cols:
+                got = [int(c.find(k).text) for k in ("red", "green", "blue")]
+                alpha = int(c.get("alpha")) if c.get("alpha") is not None else 255
+                exp = want[1:4] + [want[4] if want[0] == "rgba" else 255]
+                if got + [alpha] != exp:
+                    ctx.violation("colour string %r is embedded as %r; Qt reads %r" % (s, got + [alpha], exp), {"case": s, "qml": doc, "impl_output": r["ui"], "oracle_output": exp})
+                    break
+        n += 1
+    ctx.coverage["pipeline_colour_bindings"] = n
